@@ -1,3 +1,281 @@
-//! C09 — not built yet.
+//! C09 — a reload sees exactly the saved modifications and nothing else changes.
+use crate::casecheck::check_case;
+use crate::corpus::digest;
+use crate::doc::{root_kind, Cfg};
+use crate::panicmon::guard;
+use crate::par::par_for;
+use crate::rng::{fnv, Rng};
 use crate::run::Run;
-pub fn run(_run: &Run) { eprintln!("C09: check not built yet"); std::process::exit(2); }
+use crate::tape::Src;
+use pdf::file::FileOptions;
+use pdf::object::{NoUpdate, PlainRef, Ref, Resolve, Stream, Updater};
+use pdf::primitive::{Dictionary, PdfString, Primitive};
+use serde_json::{json, Value};
+use std::collections::BTreeMap;
+
+#[derive(Clone, Debug)]
+enum Val { Int(i32), Name(u32), Str(u32), Dict(u32), Arr(u32), Stream(u32, usize), Bad }
+#[derive(Clone, Debug)]
+enum Step { Create(Val), Update(usize, Val), Promise, Fulfil(usize, Val), Read(usize), Save, FailingSave, ContinueOnReload }
+#[derive(Debug)]
+struct Case { base: usize, cfg: Cfg, steps: Vec<Step> }
+
+fn prim(v: &Val, bad_stream: &Option<Primitive>) -> Primitive {
+    match v {
+        Val::Int(i) => Primitive::Integer(*i),
+        Val::Name(t) => Primitive::Name(format!("Tag{}", t).into()),
+        Val::Str(t) => Primitive::String(PdfString::new(format!("string #{} (with) parens\\", t).as_bytes().into())),
+        Val::Dict(t) => { let mut d = Dictionary::new(); d.insert("Tag", Primitive::Integer(*t as i32)); d.insert(format!("K{}", t % 3), Primitive::Array(vec![Primitive::Integer(1), Primitive::Number(0.5)])); Primitive::Dictionary(d) }
+        Val::Arr(t) => Primitive::Array(vec![Primitive::Integer(*t as i32), Primitive::Name("x".into()), Primitive::Null, Primitive::Boolean(true)]),
+        Val::Stream(t, n) => {
+            let mut d = Dictionary::new(); d.insert("Tag", Primitive::Integer(*t as i32));
+            let data: Vec<u8> = (0..*n).map(|i| (i as u32 * 31 + *t) as u8).collect();
+            Primitive::Stream(Stream::new(d, data).to_pdf_stream(&mut NoUpdate).expect("stream"))
+        }
+        // an in-file stream of the base document: its serialisation is not supported, so a save containing it fails
+        Val::Bad => bad_stream.clone().unwrap_or(Primitive::Null),
+    }
+}
+
+pub struct Base { pub name: String, pub bytes: Vec<u8>, pub direct: Vec<u64>, pub compressed: Vec<u64>, pub a_stream: Option<u64>, pub snapshot: BTreeMap<u64, String>, pub size: u64 }
+
+fn gen_val(s: &mut Src, tag: &mut u32) -> Val {
+    *tag += 1;
+    match s.alt(3, &["v_dict", "v_int", "v_name", "v_string", "v_array", "v_stream"]) { 0 => Val::Dict(*tag), 1 => Val::Int(*tag as i32), 2 => Val::Name(*tag), 3 => Val::Str(*tag), 4 => Val::Arr(*tag), _ => Val::Stream(*tag, s.draw(40) as usize) }
+}
+
+fn gen_case(s: &mut Src, bases: &[Base]) -> Case {
+    let base = s.draw(bases.len() as u32) as usize;
+    let cfg = Cfg { cached: s.alt(1, &["uncached", "cached"]) == 1, tolerant: false };
+    let n = 2 + s.draw(12);
+    let mut steps = Vec::new();
+    let mut tag = 0u32;
+    let mut n_targets = bases[base].direct.len().min(4) + bases[base].compressed.len().min(3);
+    let mut n_promises = 0usize;
+    let mut pending_bad = false;
+    for _ in 0..n {
+        let k = s.draw(11);
+        let st = match k {
+            0 | 1 => { n_targets += 1; Step::Create(gen_val(s, &mut tag)) }
+            2 | 3 | 4 if n_targets > 0 => Step::Update(s.draw(n_targets as u32) as usize, gen_val(s, &mut tag)),
+            5 => { n_promises += 1; Step::Promise }
+            6 if n_promises > 0 => { n_promises -= 1; n_targets += 1; Step::Fulfil(0, gen_val(s, &mut tag)) }
+            7 if n_targets > 0 => Step::Read(s.draw(n_targets as u32) as usize),
+            // a save with an unfulfilled promise outstanding is outside the domain (the promised number has no value yet)
+            8 | 9 => { if pending_bad || n_promises > 0 { continue; } Step::Save }
+            10 if bases[base].a_stream.is_some() && n_targets > 0 && !pending_bad && n_promises == 0 && s.alt(1, &["nofail", "failing_save"]) == 1 => { pending_bad = true; Step::FailingSave }
+            _ => Step::Read(0),
+        };
+        if pending_bad && matches!(st, Step::FailingSave) {
+            // the retry: replace the offender (target chosen at run time), then save
+            steps.push(st); steps.push(Step::Update(usize::MAX, gen_val(s, &mut tag))); steps.push(Step::Save); pending_bad = false; continue;
+        }
+        steps.push(st);
+    }
+    while n_promises > 0 { n_promises -= 1; steps.push(Step::Fulfil(0, gen_val(s, &mut tag))); }
+    if !steps.iter().any(|x| matches!(x, Step::Save)) { steps.push(Step::Save); }
+    if s.alt(2, &["single_document", "continue_on_reloaded_document"]) == 1 {
+        if !matches!(steps.last(), Some(Step::Save)) { steps.push(Step::Save); }
+        steps.push(Step::ContinueOnReload); steps.push(Step::Update(0, gen_val(s, &mut tag))); steps.push(Step::Create(gen_val(s, &mut tag))); steps.push(Step::Save);
+    }
+    Case { base, cfg, steps }
+}
+
+fn el(e: &pdf::PdfError) -> String { format!("{}: {}", root_kind(e), format!("{}", crate::doc::root_cause(e)).lines().next().unwrap_or("")).chars().take(120).collect() }
+
+macro_rules! fail { ($c:expr, $($t:tt)*) => { return Some(($c.to_string(), format!($($t)*))) } }
+
+/// Executes the history on one concrete File type.
+macro_rules! run_history {
+    ($file:expr, $base:expr, $c:expr, $reopen:expr) => {{
+        let mut file = $file;
+        let b: &Base = $base;
+        let c: &Case = $c;
+        // the model: id -> digest of the last value written; targets the history can address
+        let mut model: BTreeMap<u64, String> = BTreeMap::new();
+        let mut targets: Vec<PlainRef> = b.direct.iter().take(4).chain(b.compressed.iter().take(3)).map(|&id| PlainRef { id, gen: 0 }).collect();
+        let mut promises = Vec::new();
+        let bad_stream = b.a_stream.and_then(|id| file.resolver().resolve(PlainRef { id, gen: 0 }).ok());
+        let mut bad_target: Option<PlainRef> = None;
+        let mut prev_bytes: Vec<u8> = b.bytes.clone();
+        let tmp = format!("{}/harness/target/c09-{}-{:?}.pdf", crate::run::verif_root(), std::process::id(), std::thread::current().id());
+        let mut untouched: BTreeMap<u64, String> = b.snapshot.clone();
+        for (si, st) in c.steps.iter().enumerate() {
+            match st {
+                Step::Create(v) => {
+                    let p = prim(v, &bad_stream);
+                    match file.create(p.clone()) {
+                        Ok(r) => { let r = r.get_ref().get_inner(); model.insert(r.id, digest(&p, &file.resolver())); untouched.remove(&r.id); targets.push(r); }
+                        Err(e) => fail!("create-error", "step {}: create: {}", si, el(&e)),
+                    }
+                }
+                Step::Update(ti, v) => {
+                    let r = if *ti == usize::MAX { match bad_target { Some(r) => r, None => continue } } else { match targets.get(*ti) { Some(r) => *r, None => continue } };
+                    let p = prim(v, &bad_stream);
+                    match file.update(r, p.clone()) {
+                        Ok(nr) => {
+                            let nr = nr.get_ref().get_inner();
+                            if nr.id != r.id { fail!("different-ref-returned", "step {}: update of object {} was redirected to a new object {}", si, r.id, nr.id); }
+                            model.insert(r.id, digest(&p, &file.resolver())); untouched.remove(&r.id);
+                            if *ti == usize::MAX { bad_target = None; }
+                        }
+                        Err(e) => fail!("update-error", "step {}: update({}): {}", si, r.id, el(&e)),
+                    }
+                }
+                Step::Promise => { promises.push(file.promise::<Primitive>()); }
+                Step::Fulfil(_, v) => {
+                    let Some(pr) = promises.pop() else { continue };
+                    let p = prim(v, &bad_stream);
+                    let r = pr.get_inner();
+                    match file.fulfill(pr, p.clone()) {
+                        Ok(nr) => { if nr.get_ref().get_inner().id != r.id { fail!("different-ref-returned", "step {}: fulfil of promise {} landed on {}", si, r.id, nr.get_ref().get_inner().id); }
+                            model.insert(r.id, digest(&p, &file.resolver())); targets.push(r); }
+                        Err(e) => fail!("fulfil-error", "step {}: {}", si, el(&e)),
+                    }
+                }
+                Step::Read(ti) => {
+                    let Some(r) = targets.get(*ti).cloned() else { continue };
+                    let res = file.resolver();
+                    let expect = model.get(&r.id).or(b.snapshot.get(&r.id));
+                    let Some(expect) = expect else { continue };
+                    match res.resolve(r) { Ok(p) => { let d = digest(&p, &res); if &d != expect { fail!(if model.contains_key(&r.id) { "read-your-writes-resolve" } else { "untouched-changed-before-save" }, "step {}: resolve({}) = {} expected {}", si, r.id, short(&d), short(expect)); } }
+                        Err(e) => fail!("read-error", "step {}: resolve({}): {}", si, r.id, el(&e)) }
+                    match res.get::<Primitive>(Ref::new(r)) { Ok(p) => { let d = digest(&p, &res); if &d != expect { fail!(if model.contains_key(&r.id) { "read-your-writes-get" } else { "untouched-changed-before-save" }, "step {}: get({}) = {} expected {}", si, r.id, short(&d), short(expect)); } }
+                        Err(e) => fail!("read-error", "step {}: get({}): {}", si, r.id, el(&e)) }
+                }
+                Step::FailingSave => {
+                    // put an unserialisable value (an in-file stream primitive) under an existing target, save must fail cleanly
+                    let Some(r) = targets.last().cloned() else { continue };
+                    let p = prim(&Val::Bad, &bad_stream);
+                    if let Err(e) = file.update(r, p) { fail!("update-error", "step {}: update with in-file stream: {}", si, el(&e)); }
+                    bad_target = Some(r);
+                    match file.save_to(&tmp) {
+                        Err(_) => {}
+                        Ok(()) => { // the library managed to write it: then it must read back; treat as a normal save of an unknown value
+                            model.remove(&r.id); untouched.remove(&r.id); bad_target = None;
+                            prev_bytes = std::fs::read(&tmp).unwrap_or_default();
+                        }
+                    }
+                }
+                Step::Save | Step::ContinueOnReload => {
+                    if matches!(st, Step::ContinueOnReload) {
+                        // continue the history on a freshly loaded copy of the last saved bytes
+                        match $reopen(prev_bytes.clone()) { Ok(f) => { file = f; promises.clear(); continue; } Err(e) => fail!("reload-error", "step {}: reopening saved bytes: {}", si, el(&e)) }
+                    }
+                    if bad_target.is_some() { continue; }
+                    if let Err(e) = file.save_to(&tmp) { fail!("save-error", "step {}: save: {}", si, el(&e)); }
+                    let out = std::fs::read(&tmp).unwrap_or_default();
+                    if !out.starts_with(&prev_bytes) { fail!("previous-revision-modified", "step {}: the previous revision ({} bytes) is not a prefix of the saved output ({} bytes)", si, prev_bytes.len(), out.len()); }
+                    for tolerant in [false, true] {
+                        let opts = if tolerant { pdf::object::ParseOptions::tolerant() } else { pdf::object::ParseOptions::strict() };
+                        let re = match FileOptions::uncached().parse_options(opts).load(out.clone()) { Ok(f) => f, Err(e) => fail!("reload-error", "step {}: reload ({}): {}", si, if tolerant { "tolerant" } else { "strict" }, el(&e)) };
+                        let res = re.resolver();
+                        for (id, expect) in model.iter() {
+                            match res.resolve(PlainRef { id: *id, gen: 0 }) {
+                                Ok(p) => { let d = digest(&p, &res); if &d != expect { fail!("reload-wrong-value", "step {}: after reload object {} = {} expected {}", si, id, short(&d), short(expect)); } }
+                                Err(e) => fail!("reload-missing-value", "step {}: after reload object {}: {}", si, id, el(&e)),
+                            }
+                        }
+                        for (id, expect) in untouched.iter() {
+                            let d = norm_missing(match res.resolve(PlainRef { id: *id, gen: 0 }) { Ok(p) => digest(&p, &res), Err(e) => format!("Err({})", root_kind(&e)) });
+                            if d != norm_missing(expect.clone()) { fail!("untouched-changed", "step {}: untouched object {} = {} was {}", si, id, short(&d), short(expect)); }
+                        }
+                    }
+                    // the open document keeps answering correctly after the save
+                    { let res = file.resolver(); for (id, expect) in model.iter().take(6) { match res.resolve(PlainRef { id: *id, gen: 0 }) { Ok(p) => { let d = digest(&p, &res); if &d != expect { fail!("open-document-wrong-after-save", "step {}: object {} = {} expected {}", si, id, short(&d), short(expect)); } } Err(e) => fail!("open-document-error-after-save", "step {}: object {}: {}", si, id, el(&e)) } } }
+                    prev_bytes = out;
+                }
+            }
+        }
+        let _ = std::fs::remove_file(&tmp);
+        None
+    }};
+}
+fn short(s: &str) -> String { s.chars().take(70).collect() }
+/// free, undefined and beyond-the-table numbers are all "missing"
+fn norm_missing(d: String) -> String { if d == "Err(FreeObject)" || d == "Err(NullRef)" || d == "Err(UnspecifiedXRefEntry)" { "Err(missing)".into() } else { d } }
+
+fn oracle(c: &Case, bases: &[Base]) -> Option<(String, String)> {
+    let b = &bases[c.base];
+    let r = guard(|| -> Option<(String, String)> {
+        if c.cfg.cached {
+            let f = match FileOptions::cached().load(b.bytes.clone()) { Ok(f) => f, Err(e) => return Some(("base-load-error".into(), el(&e))) };
+            run_history!(f, b, c, |bytes: Vec<u8>| FileOptions::cached().load(bytes))
+        } else {
+            let f = match FileOptions::uncached().load(b.bytes.clone()) { Ok(f) => f, Err(e) => return Some(("base-load-error".into(), el(&e))) };
+            run_history!(f, b, c, |bytes: Vec<u8>| FileOptions::uncached().load(bytes))
+        }
+    });
+    match r { Ok(x) => x, Err(p) => Some((p.signature(), p.describe())) }
+}
+
+pub fn make_base(name: &str, bytes: Vec<u8>) -> Option<Base> {
+    let f = FileOptions::uncached().load(bytes.clone()).ok()?;
+    let res = f.resolver();
+    let size = f.trailer.size.max(0) as u64;
+    let (mut direct, mut compressed, mut a_stream, mut snapshot): (Vec<u64>, Vec<u64>, Option<u64>, BTreeMap<u64, String>) = (Vec::new(), Vec::new(), None, BTreeMap::new());
+    // which objects are compressed: read the file with the independent reader's eyes is overkill here; use the raw text
+    for id in 1..size.min(400) {
+        match res.resolve(PlainRef { id, gen: 0 }) {
+            Ok(p) => {
+                snapshot.insert(id, digest(&p, &res));
+                let head = format!("\n{} 0 obj", id);
+                let is_direct = bytes.windows(head.len()).any(|w| w == head.as_bytes()) || bytes.starts_with(&head.as_bytes()[1..]);
+                if matches!(p, Primitive::Stream(_)) { if a_stream.is_none() { a_stream = Some(id); } }
+                // bare integers are typically the /Length of some stream: rewriting them changes what that stream reads as (not an "untouched" object any more)
+                else if matches!(p, Primitive::Integer(_)) {}
+                else if matches!(p, Primitive::Dictionary(ref d) if d.get("Type").map(|t| t.as_name().map(|n| n == "Catalog" || n == "Pages" || n == "XRef" || n == "ObjStm").unwrap_or(false)).unwrap_or(false)) {}
+                else if is_direct { direct.push(id); } else { compressed.push(id); }
+            }
+            Err(e) => { snapshot.insert(id, format!("Err({})", root_kind(&e))); }
+        }
+    }
+    // keep only targets whose replacement leaves the document loadable (objects the trailer/catalog load eagerly are not
+    // "modifiable" without making the file invalid): trial update + save + reload on a scratch copy
+    let tmp = format!("{}/harness/target/c09-trial-{}-{:?}.pdf", crate::run::verif_root(), std::process::id(), std::thread::current().id());
+    let ok = |id: u64| -> bool {
+        let Ok(mut f) = FileOptions::uncached().load(bytes.clone()) else { return false };
+        if f.update(PlainRef { id, gen: 0 }, Primitive::Integer(1)).is_err() { return false; }
+        if guard(|| f.save_to(&tmp)).map(|r| r.is_err()).unwrap_or(true) { return false; }
+        std::fs::read(&tmp).ok().map(|b| FileOptions::uncached().load(b).is_ok()).unwrap_or(false)
+    };
+    direct.retain(|id| ok(*id));
+    compressed.retain(|id| ok(*id));
+    let _ = std::fs::remove_file(&tmp);
+    Some(Base { name: name.into(), bytes, direct, compressed, a_stream, snapshot, size })
+}
+
+pub fn bases(seed: u64) -> Vec<Base> {
+    let mut out = Vec::new();
+    for s in crate::corpus::valid_files() {
+        if ["example.pdf", "xelatex.pdf", "pdf-sample.pdf", "offset.pdf", "formxobject.pdf", "libreoffice.pdf"].contains(&s.name.as_str()) { if let Some(b) = make_base(&s.name, s.bytes) { out.push(b); } }
+    }
+    for (i, l) in [crate::richdoc::Layout::Classic, crate::richdoc::Layout::XrefStream, crate::richdoc::Layout::Incremental].iter().enumerate() {
+        if let Some(b) = make_base(&format!("rich-{}", i), crate::richdoc::write(&crate::richdoc::objects(), *l, if i == 1 { b"junk before the header\n" } else { b"" })) { out.push(b); }
+    }
+    for k in 0..3u64 {
+        let mut s = Src::fresh(Rng::derive(seed, 900, k));
+        let plan = crate::props::c02::gen_plan(&mut s, 8, 3);
+        if let Some(b) = make_base(&format!("history-{}", k), crate::props::c02::build(&plan).bytes) { out.push(b); }
+    }
+    out
+}
+
+fn witness(c: &Case, bases: &[Base]) -> Value { json!({"base": bases[c.base].name, "cfg": c.cfg.name(), "steps": c.steps.iter().map(|s| format!("{:?}", s)).collect::<Vec<_>>() }) }
+
+pub fn run(run: &Run) {
+    run.rule("histories (<= 14 steps + optional continuation on the reloaded document) over {create v, update r v, promise, fulfil p v, read r (resolve and get), save, failing save (an unserialisable in-file stream value, then replace the offender and save again)} on base files: example.pdf (classic), xelatex/pdf-sample/libreoffice (xref stream + compressed objects), offset.pdf and a generated file with junk before the header, generated rich documents in 3 layouts, generated multi-section histories; update targets: direct, compressed, created and promised objects; values uniquely tagged dictionaries, integers, names, strings, arrays, streams; cached and uncached. Oracle: sequential model ref -> last value + snapshot of the base from a separate uncached load: read-your-writes before save, previous revision is a byte prefix, strict and tolerant reload resolves every model entry under the very reference and every untouched object to the snapshot, open document still right after save. distinct_nontrivial = distinct (base, history) with at least one save");
+    run.assume("update is only applied to in-use, created or promised objects (updating a free or undefined number is outside the statement)");
+    let bs = bases(run.seed);
+    for b in &bs { run.count(&format!("base:{}:direct{}:compressed{}", b.name, b.direct.len().min(4), b.compressed.len().min(3))); }
+    let n = run.n(12_000, 300_000);
+    par_for(n, |i| {
+        run.eval();
+        check_case(run, "C09", "history", Src::fresh(Rng::derive(run.seed, 9, i)), &|s| gen_case(s, &bs), &|c| oracle(c, &bs), &|c| witness(c, &bs), &|c, s| {
+            run.nontrivial(fnv(format!("{:?}", c).as_bytes()));
+            for st in &c.steps { run.count(match st { Step::Create(_) => "op:create", Step::Update(..) => "op:update", Step::Promise => "op:promise", Step::Fulfil(..) => "op:fulfil", Step::Read(_) => "op:read", Step::Save => "op:save", Step::FailingSave => "op:failing-save", Step::ContinueOnReload => "op:continue-on-reload" }); }
+            for l in &s.labels { run.count(&format!("label:{}", l)); }
+            if i < 4 { run.sample(witness(c, &bs)); }
+        });
+    });
+}
